@@ -106,6 +106,9 @@ def run_one(pd, props):
     try:
         rc, out = sh(f"git apply {pd}", cwd=wt)
         if rc != 0:
+            # the context moved because of later fix: commits in /repo: merge against the recorded pre-image blobs
+            rc, out = sh(f"git apply --3way {pd} && git reset -q", cwd=wt)
+        if rc != 0:
             return sid, {"property": prop, "status": "patch no longer applies", "detected_by": []}
         rc, out = sh(f"bin/evycheck -all -no-evidence -repo {wt}", cwd=ROOT)
         detected = sorted(set(l.split("property=")[1].split()[0] for l in out.splitlines() if l.startswith("VIOLATION property=")))
